@@ -35,6 +35,11 @@ CLAIMS = {
         technique="Lean 4 proofs about a transcription of Symbol::findStage / setSymbolStages / runSymbols order (stage correctness, uniqueness under permutation, cycle => error, termination bound, value order-independence); correspondence on random dependency graphs x module orders on the real binary (stages, execution trace, all values exact)",
         text="For every symbol list: a successful stage assignment puts every symbol strictly after all other producers of what it reads, equals the longest-path level and is therefore the same for every module order; cycles always end in the stageIterations error; acyclic graphs of depth < stageIterations succeed in every order; scheduled evaluation never reads a stale value. The model's stages equal the real binary's for every explored graph and order, and the real values equal a direct evaluation in all orders.",
         note=BASE_NOTE + "The model is hand-written (no translator): the tie is the correspondence only. Triplet/quintet and bonded calculators and the '_0' table are treated as further producers but not generated in scenarios; a candidate defect outside C06's statement (triplet calculators staged above every particle/pair stage are never run) is recorded in DESIGN.md."),
+    "C14": dict(
+        level="proof", design="DESIGN.md section 3, C14",
+        technique="Lean 4 invariant/frame proofs over ALL op sequences of a DataFormat/Data model with an explicit refcounted heap; tables (enum, sizeof/alignof by compiled probe, alignment rule, container and text case tables, fall-through flag) regenerated from data_format.h/.cpp; differential correspondence on random op sequences (ASan/UBSan/LSan harness); property-level oracle families on the real classes",
+        text="Layout invariant (cumulative offsets, disjointness, 8-byte alignment after alignDataFor), add preserves/idempotent/conflict, deep copy with exact refcounts for containers, clear zeroes exactly the non-persistent attributes, text round trip for INT/DOUBLE/POINT/TENSOR/STRING - for every op sequence. Three genuine defects about STRING and container attributes are recorded as known findings (witness theorems + real replays) and reported as KNOWN-FINDING.",
+        note=BASE_NOTE + "Hypothesis of the text round trip: libc %g/atof/atoi are inverse on the <= 6 significant digit domain (validated against libc by the correspondence, proved for the executable codec on a finite table). Operations the model classifies as undefined behaviour (stale block, null format, misaligned without alignDataFor) end a case."),
 }
 
 
